@@ -39,12 +39,13 @@ type State struct {
 	ep    *epoch
 	alloc Term
 	pc    Term
+	cf    Term // control-flow part of pc only (branch decisions, no assumed facts): used as the condition of merges
 	defers []deferEntry
 	dirty  map[string]bool // components written by an effect-summarised call before this generator ever read them
 }
 
 func (s *State) clone() *State {
-	n := &State{heap: make(map[string]Term, len(s.heap)), ep: s.ep, alloc: s.alloc, pc: s.pc, defers: s.defers}
+	n := &State{heap: make(map[string]Term, len(s.heap)), ep: s.ep, alloc: s.alloc, pc: s.pc, cf: s.cf, defers: s.defers}
 	for k, v := range s.heap {
 		n.heap[k] = v
 	}
@@ -140,6 +141,25 @@ func (vc *VC) define(prefix, sort string, t Term) Term {
 	vc.declared[n] = true
 	vc.decls = append(vc.decls, fmt.Sprintf("(define-fun %s () %s %s)", n, sort, t))
 	return n
+}
+
+// defineByAxiom names a term with a declared constant and a defining equation (instead of a
+// define-fun, which solvers inline): quantified facts over the name then have a usable pattern.
+func (vc *VC) defineByAxiom(prefix, sort string, t Term) Term {
+	if !strings.ContainsAny(t, " (") {
+		return t
+	}
+	n := vc.fresh(prefix)
+	vc.declare(n, sort)
+	vc.axiom(eq(n, t))
+	return n
+}
+
+func (st *State) cfOr() Term {
+	if st.cf == "" {
+		return "true"
+	}
+	return st.cf
 }
 
 func (vc *VC) axiom(t Term) {
